@@ -23,7 +23,10 @@ class Part:
     def source(self) -> str:
         sig = ', '.join('%s: %s' % (n, t) for n, t in self.params)
         call = ', '.join('%s=%s' % (n, n) for n, _ in self.params)
-        pre = ''.join('    pre: %s\n' % p for p in list(self.pre) + ['not (%s)' % e for e in self.exclude])
+        # lone surrogates are outside every symbolic string domain (see hx.valid_text)
+        text = ['hx.valid_text(%s)' % n for n, t in self.params if t == 'str']
+        pre = ''.join('    pre: %s\n' % p for p in list(self.pre) + text
+                      + ['not (%s)' % e for e in self.exclude])
         return (
             'import struct, datetime, decimal, time, copy\n'
             'from typing import Optional, Union, List, Dict, Tuple\n'
